@@ -4,46 +4,46 @@ import json, os
 ROOT = os.path.dirname(os.path.dirname(os.path.abspath(__file__)))
 CHECKS = {
  "C01": ("exploration", "differential vs independent reference encoder; buffer canaries; decode-back; stream encoder/decoder comparison",
-         "bounded-exhaustive over type x flag matrix x varint-boundary remaining lengths x boundary field lengths/ids plus >=150k random values per run; every value compared byte-for-byte with ref/codec",
+         "bounded-exhaustive over type x flag matrix x varint-boundary remaining lengths x boundary field lengths/ids plus 150k (quick) / 8M (thorough) random values per run; every value compared byte-for-byte with ref/codec",
          "trusts internal/ref/codec.go as the reading of MQTT 3.1.1; built without -race (sequential property) but with -d=checkptr", "2-C01"),
  "C04": ("exploration", "differential vs reference matcher in both directions (Match on stored filters, Search on stored names)",
-         "exhaustive over {a,b,empty,+,#} to depth 3 (quick) / 4 (thorough): all single pairs, all pairs of entries, whole universe in one tree; plus random sets to depth 12 with multi-byte levels",
+         "exhaustive over {a,b,empty,+,#} to depth 3 (quick) / 4 (thorough): all single pairs, all pairs of entries, whole universe in one tree; plus 3k (quick) / 400k (thorough) random sets to depth 12 with multi-byte levels, also with several values per entry and with entries stored and removed again; every result is held across the next query and then overwritten",
          "trusts internal/ref/topic.go (15 lines) as the reading of MQTT 3.1.1 §4.7 without the $ rule; built without -race (sequential property)", "2-C04"),
  "C02": ("exploration", "differential vs independent reference decoder; panic trap; locality probe (framed vs framed+junk); ownership probe (overwrite source buffer / reuse stream pool); re-encodability of admitted messages",
-         "exhaustive 1-byte (quick) and 2-byte (thorough) length headers x 256 first bytes x body patterns, CONNECT field matrix (names x levels x all 256 flag bytes), structure-aware mutations of valid encodings (bit flips, byte edits, truncation at every offset, extension, splicing), >=150k random strings; every input decoded five ways and compared with ref/codec",
+         "exhaustive 1-byte (quick) and 2-byte (thorough) length headers x 256 first bytes x body patterns, CONNECT field matrix (names x levels x all 256 flag bytes), structure-aware mutations of valid encodings (bit flips, byte edits, truncation at every offset, extension, splicing), 150k (quick) / 12M (thorough) random strings; every input decoded five ways and compared with ref/codec",
          "trusts internal/ref/codec.go with the leniencies listed in DESIGN.md; two Connect.Decode findings are recorded in known_findings.json; built without -race but with -d=checkptr", "2-C02"),
  "C05": ("exploration", "map reference model driven side by side with all queries after every step; trie-shape comparison with a fresh tree; snapshot re-comparison of returned slices; porcupine linearizability check of concurrent histories; Go race detector",
          "exhaustive mutation sequences of length 3 (quick) / 4 and 5 (thorough) over a 4-topic x 2-value universe, random sequences to length 400, 2.5k (quick) / 50k (thorough) concurrent histories of 2-16 goroutines",
          "porcupine v1.3.0 and the Go race detector are trusted; result order and the choice of MatchFirst/SearchFirst are left free", "2-C05"),
  "C18": ("exploration", "reference successor function over all 65536 counter states; distinctness walks; concurrent draws across the wrap; map model of the packet store over bounded-exhaustive op sequences; porcupine (partitioned by direction,id); Go race detector",
-         "all 65536 counter states (one step), 256 (quick) / all 65536 (thorough) full 65535-draw walks, 8k/100k concurrent rounds at the wrap-around, store op sequences to length 3/4 over 25 operations with full-state comparison, 4k/60k concurrent store histories",
+         "all 65536 counter states (one step), 256 (quick) / all 65536 (thorough) full 65535-draw walks, 8k/100k concurrent rounds at the wrap-around, store op sequences to length 3/4 over 25 operations with full-state comparison, 60/1500 bulk histories with up to 400 ids and hundreds live per direction, 4k/60k concurrent store histories",
          "MemorySession.Reset is exercised sequentially only (it spans both stores and the counter and is not claimed atomic across directions); concurrently the per-direction PacketStore.Reset is used", "2-C18"),
  "C03": ("exploration", "sequence and byte equality under scheduled fragmentation (chunking reader, in-memory wire, raw TCP writes, raw WebSocket messages); pull and allocation counters for the read limit; truncation probes",
          "every single/pair of split points of short streams, PRNG chunking of long streams with packets around 4096 bytes, all async/sync patterns of <=6 sends x 3 flush delays, BaseConn both directions, TCP and WebSocket loopback (half of the exchanges with the read limit equal to the largest packet), WebSocket exchanges of in-limit packets followed by one oversized packet under three message splittings",
          "expected bytes come from internal/ref/codec.go; loopback networking must be available (else that part is reported inconclusive)", "2-C03"),
  "C06": ("exploration", "reference delivery model compared with the PUBLISH multisets received by scripted peers behind FIFO marker fences (sequential), event-log-order oracle for concurrent runs",
-         "120 (quick) / 2500 (thorough) sequential histories of 20-40 operations over 1-6 clients checked after every operation, 40 / 1000 concurrent runs of 2-6 clients with backend-boundary perturbation",
+         "120 (quick) / 2500 (thorough) sequential histories of 20-40 operations over 1-6 clients and a topic/filter universe that includes empty levels (a//b, a/b/, /a) checked after every operation, 40 / 1000 concurrent runs of 2-6 clients with backend-boundary perturbation",
          "peers acknowledge everything and keep reading; offline/resume behaviour belongs to C08; in concurrent runs a delivery may carry the uncapped publish QoS when the client's own unsubscribe fell between publish and delivery (recorded, not asserted)", "2-C06"),
  "C20": ("exploration", "wire byte recorder (zero bytes before CONNECT), per-connection backend hook trace, response multiset matching behind a SUBSCRIBE fence through the ack queue",
-         "exhaustive over all packet-kind sequences of length 1-3 x 4 credential situations written in one burst, hostile first frames, 1.5k (quick) / 30k (thorough) random pipelines of up to 40 packets with repeating ids",
+         "exhaustive over all packet-kind sequences of length 1-3 x 4 credential situations written in one burst, hostile first frames, 1.5k (quick) / 120k (thorough) random pipelines of up to 40 packets with repeating ids",
          "responses to requests preceding a connection-closing packet in the same burst may be lost with the connection; only unsolicited packets are judged there", "2-C20"),
  "C11": ("exploration", "reference retained-map model; probe subscribers, live observer, offline persistent subscriber and '#' checkpoints compared behind marker fences",
-         "120 (quick) / 2500 (thorough) histories of 14-28 steps: retained/plain/empty publishes, retained wills of dropped victims, subscriptions cycling through all 105 filters of the depth<=3 universe; 150 (quick) / 3000 (thorough) concurrent runs in which 3-8 subscribers subscribe while a publisher streams 40-100 numbered retained values under backend load (replayed value + live values must be gap-free)",
+         "120 (quick) / 2500 (thorough) histories of 14-28 steps: retained/plain/empty publishes, retained wills of dropped victims, subscriptions cycling through all 105 filters of the depth<=3 universe; 12/120 stalled-victim runs (own queue full, retained will must survive); 150 (quick) / 3000 (thorough) concurrent runs in which 3-8 subscribers subscribe while a publisher streams 40-100 numbered retained values under backend load (replayed value + live values must be gap-free)",
          "per-filter replay of one SUBSCRIBE may arrive 1..k times; QoS 0 publishes for an offline persistent subscriber may be dropped", "2-C11"),
  "C07": ("fault_enumeration", "offline checkers over the recorded event log (backend ack -> PUBACK/PUBCOMP order, three-state QoS 2 receiver model driven by the broker's own received-packet report, hand-over counts) plus a pre-send assertion on the session for PUBREC and a SUBACK fence through the ack queue",
-         "every publisher script of length <=3 (quick) / <=4 plus 1200 sampled of length 5 (thorough) x every single connection-fault position (all positions up to length 2 in quick / 3 in thorough, every 2nd-3rd position with a moving offset beyond) (k-th Send/Receive, before/after, per connection) x backend ack mode {sync, late, never} x backend refusing the k-th hand-over; held-late-ack scenarios",
+         "every publisher script of length <=3 (quick) / <=4 plus 1200 sampled of length 5 (thorough) x every single connection-fault position (all positions up to length 2 in quick / 3 in thorough, every 2nd-3rd position with a moving offset beyond) (k-th Send/Receive, before/after, per connection) x backend ack mode {sync, late, never} x backend refusing the k-th hand-over; held-late-ack scenarios; fault-free runs with as few publish tokens as the script needs (the broker must never end a connection of the well-behaved publisher by itself)",
          "what the broker received is taken from Log(PacketReceived); one finding (second hand-over while the first is still unacknowledged) is recorded in known_findings.json", "2-C07"),
- "C08": ("fault_enumeration", "pre-send assertion on the live session (store-before-send), model of sent-and-unacknowledged packets driven by broker-side sends and the broker's received-packet report compared with the session store at connection ends, retransmission/DUP check after resume, no-second-non-duplicate check, end-to-end no-loss check, session-present model",
+ "C08": ("fault_enumeration", "pre-send assertion on the live session (store-before-send), model of sent-and-unacknowledged packets driven by broker-side sends and the broker's received-packet report compared with the session store at connection ends, retransmission/DUP check after resume, no-second-non-duplicate check, no new message under a packet id still in flight, end-to-end no-loss check, stored-session model driven by the backend's Setup",
          "90 (quick) / 1200 (thorough) base scenarios (window 1-3, 1..window+2 messages QoS 1/2, offline messages, subscriber behaviour vectors over ack/withhold/drop on first and resumed connection, clean/unclean second connect) x every single fault position on each subscriber connection (all positions for a third of the scenarios in quick)",
          "workloads stay inside SessionQueueSize; the amount delivered before a loss depends on scheduling (the model is event-driven, so this only varies coverage)", "2-C08"),
  "C16": ("exploration", "online inflight counter at the scripted subscriber (never above the window, retransmissions included), two-queue marker drain check, token conservation at quiescence through the VerifTokens hook",
          "1200 (quick) / 20000 (thorough) streams: windows 1-10, 1..20 x window messages, QoS mixes incl. pure QoS 0, batched / reversed / half-way QoS 2 acknowledgement policies, drop+resume at a PRNG point; 12/120 idle-first runs (idle longer than the token timeout, then saturate the window and acknowledge in time)",
          "the subscriber only acknowledges what it received and releases withheld acknowledgements when its window is full; hook commit adds broker/verif_hooks.go behind the verif tag", "2-C16"),
  "C12": ("fault_enumeration", "count of Backend.Publish calls with the will's content on behalf of the dying client after its Closed() fired, cross-checked with online, offline-persistent and late (retained) observers behind marker fences",
-         "full matrix of 19 termination causes x 5 protocol states (applicable pairs) x will QoS 0-2 x retain = 390 scenarios, 3 (quick) / 40 (thorough) repetitions for schedule diversity; keep-alive expiry also with a silent victim under steady outbound traffic",
+         "full matrix of 19 termination causes x 5 protocol states (applicable pairs) x will QoS 0-2 x retain = 390 scenarios, 3 (quick) / 100 (thorough) repetitions for schedule diversity; keep-alive expiry also with a silent victim under steady outbound traffic",
          "DISCONNECT racing with another cause is judged by what the broker logged as received; a processor blocked on a token ends at the token timeout", "2-C12"),
  "C13": ("exploration", "online assertions at the backend boundary (Setup return: no other set-up client of the id without Terminate; CONNACK pre-send: every older client of the id terminated), PINGREQ liveness probe (exactly one survivor), session-present replay in recorded Setup order, Terminate counts, displaced will count, VerifSnapshot bookkeeping, no-loss/no-second-new-delivery for persistent parties, goroutine-profile stuck detector, race detector",
-         "1200 (quick) / 25000 (thorough) rounds of 2-8 simultaneous CONNECTs with one id (clean/unclean mixed) against an absent / idle / mid-handshake / concurrently dying old connection with concurrent QoS 1 traffic and backend-boundary perturbation; 2-6 blocked-in-send rounds (known finding)",
+         "1200 (quick) / 25000 (thorough) rounds of 2-8 simultaneous CONNECTs with one id (clean/unclean mixed) against an absent / idle / mid-handshake / token-starved / concurrently dying old connection with concurrent QoS 1 traffic and backend-boundary perturbation; 2-6 blocked-in-send rounds (known finding)",
          "schedules are those the Go scheduler produces under perturbation (evidence counts distinct Setup orders); the blocked-in-send deadlock is a recorded known finding", "2-C13"),
  "C14": ("exploration", "child-process liveness with a crash journal, two witness clients exchanging numbered QoS 0/1/2 traffic and PINGs after every group of hostile streams, Closed() and Setup/Terminate pairing for every hostile connection, VerifSnapshot bookkeeping, goroutine census at final quiescence",
          "24 (quick) / 500 (thorough) brokers x 36 hostile streams of 9 kinds run 6 at a time with backend-boundary perturbation; MemoryBackend.Close at every backend hook-call index 1..40 of two concurrent sessions; every backend hook failing at its 1st-4th call before/after; takeover hitting KillTimeout",
@@ -52,16 +52,16 @@ CHECKS = {
          "60/1500 end-to-end runs (1-8 pipelining publishers, 1-4 subscribers, windows 1-10, perturbation), 150/4000 broker resend runs, 200/5000 backlog cut-and-resume runs (with acknowledgements out of the middle of the window before the cut), 150/3000 client resend runs, 100/2000 client inbound runs, 80/1500 service command runs (quick/thorough)",
          "schedules are those produced by the Go scheduler with perturbation at the backend boundary; duplicates (DUP) are ignored for first-arrival order", "2-C15"),
  "C09": ("fault_enumeration", "offline checkers over the recorded event log of the client boundary (recording Session wrapper, logging Conn wrapper, scripted broker that logs an acknowledgement before writing it): SavePacket-before-send order, acknowledgement-before-future-success order, session content at rest, retransmission with DUP on resume; resolution poll of every future after the terminal call; goroutine-profile stuck detector around Close/Disconnect; accessor panic trap",
-         "all API sequences of length <=3 (sampled length 3 in quick, plus sampled length 4 and 2-8 concurrent callers in thorough) x 6 acknowledgement behaviours x 4 CONNACK behaviours x 4 terminal events x resume; for a deterministic subset every single client-side connection fault position (incl. the CONNECT) and every Session method failing at its 1st-3rd call; a slow Logger widens the send/bookkeeping window and a future whose acknowledgement the client logged as received must complete",
+         "all API sequences of length <=3 (sampled length 3 in quick, plus 15000 sampled length-4 sequences with 0-8 concurrent callers in thorough) x 6 acknowledgement behaviours x 4 CONNACK behaviours x 4 terminal events x resume; for a deterministic subset every single client-side connection fault position (incl. the CONNECT) and every Session method failing at its 1st-3rd call; a slow Logger widens the send/bookkeeping window and a future whose acknowledgement the client logged as received must complete",
          "an acknowledgement of another kind carrying the live packet id is accepted as that id's acknowledgement (the client keys futures by id only); futures are polled with a retried 25 ms Wait because Wait selects randomly between a ready future and an expired timer", "2-C09"),
  "C10": ("fault_enumeration", "receiver model driven by what the client received (event log of the client boundary) compared with application callback invocations and acknowledgements written; QoS 0 marker fence through the client's single processor; completion phase retransmitting PUBREL",
          "all scripted-broker scripts of length <=3 (quick) / <=4 plus sampled length 5 with 3 ids (thorough) over {PUBLISH q2 (dup), PUBLISH q1, PUBLISH q0, PUBREL, drop+resume} x callback plans {nil, error at 1st/2nd/3rd invocation} x both callback modes x every single client-side send fault (each acknowledgement, before/after)",
          "exactly-once is asserted in the default mode only; rejected deliveries are not counted; what the client received is taken from its connection's receive log (same goroutine as processing)", "2-C10"),
  "C19": ("fault_enumeration", "reassembly of (sender, seq, checksum) payloads at the peer, parsing of the recorded wire bytes into whole sent packets, logical-clock order for 'Send returned nil before Close was called', instrumented carrier with call log and fault injection, bounded-call guards with goroutine-profile confirmation, Go race detector",
-         "250/6000 send-and-close cases on the in-memory wire, 40/600 on TCP and 30/400 on WebSocket loopback (1-16 senders, async/sync patterns, flush delays 0-50 ms, close after a PRNG number of sends), every k for each carrier call kind (Read/Write/Close/SetReadDeadline) x 2 flush delays, read timeouts 10-30 ms on all three carriers",
+         "250/6000 send-and-close cases on the in-memory wire, 40/600 on TCP and 30/400 on WebSocket loopback (1-16 senders, async/sync patterns, flush delays 0-50 ms, close after a PRNG number of sends), every k for each carrier call kind (Read/Write/Close/SetReadDeadline) x 2 flush delays, read timeouts 10-30 ms on all three carriers; 12/180 runs with 1-3 senders blocked on a non-reading peer when the receive side fails (timeout, garbage, oversized packet)",
          "peers always drain; an error injected into the SetReadTimeout call (which has no error result) is not required to be reported; loopback networking must be available", "2-C19"),
  "C17": ("fault_enumeration", "per-connection subscription set kept by the scripted broker compared with a model of all subscribe/unsubscribe calls at rest (fence publish through the FIFO command queue, bounded settling), completion of QoS>0 publish futures across reconnects, resolution poll of all futures after Stop(true), goroutine-profile stuck detector around fences and Stop, restart probe",
-         "every failure schedule of length <=2 (quick, 4 repetitions) / <=3 (thorough, 12 repetitions, plus 1500 sampled schedules of length 3-5) over 7 failure kinds, with API calls before Start, racing with the failures from 1-4 goroutines and online; 150/2500 command storms racing with repeated drops; 40/600 stop-while-offline runs; 120/2500 Start/Stop races from several goroutines judged at the settled state",
+         "every failure schedule of length <=2 (quick, 4 repetitions) / <=3 (thorough, 30 repetitions, plus 1500 sampled schedules of length 3-5) over 7 failure kinds, with API calls before Start, racing with the failures from 1-4 goroutines and online; 150/6000 command storms racing with repeated drops; 40/2000 stop-while-offline runs; 120/6000 Start/Stop races; every other scenario with a scripted broker that reports session-present from several goroutines judged at the settled state",
          "a command taken off the queue while its client is dying is cancelled by the dispatcher (caller is told) and is accepted; subscribe/unsubscribe futures need not complete across a reconnect; service timeouts are 40 ms", "2-C17"),
 }
 NOT_APPLICABLE = {}
